@@ -244,10 +244,10 @@ class ExplorerScriptSsbDecompiler:
 
     def source_map_add_jump_opcode(self, op_offset: int) -> None:
         """
-        For a plain Jump op: its statement is written by the handler of the label it jumps to, if at all, and possibly
-        only after the current block has been closed. Until then the entry stands where the jump would be written now.
+        For a plain Jump op: its statement is written by the handler of the label it jumps to, if at all (the label may
+        simply follow), and possibly only after the current block has been closed. The entry is added when the
+        statement is written; a jump that needs no statement has no position in the text.
         """
-        self.source_map_add_opcode(op_offset)
         self._jump_waiting_for_statement = op_offset
 
     def source_map_add_opcode(self, op_offset: int, continues_line: bool = False) -> None:
